@@ -101,6 +101,21 @@ def instance_of(world, rel, clsname, **attrs):
     if not isinstance(c, ClassRef):
         raise AnchorError("%s is not a class of %s" % (clsname, rel))
     inst = Instance(c)
+    # plain fields the constructors of the class chain initialise with a literal (self._n = 0, self._cache = {}, self._x = None) are given that value first: the
+    # state under analysis is then laid over them, and a field the code under analysis added to __init__ exists
+    try:
+        chain = [k for k in c.mro() if isinstance(k, ClassRef)]
+    except Exception:
+        chain = [c]
+    for k in reversed(chain):
+        ini = next((n for n in k.node.body if isinstance(n, ast.FunctionDef) and n.name == "__init__"), None)
+        for st in (ini.body if ini is not None else []):
+            if isinstance(st, ast.Assign) and len(st.targets) == 1 and isinstance(st.targets[0], ast.Attribute) and isinstance(st.targets[0].value, ast.Name) \
+                    and st.targets[0].value.id == "self":
+                try:
+                    inst._attrs[st.targets[0].attr] = ast.literal_eval(st.value)
+                except (ValueError, SyntaxError, TypeError):
+                    pass
     inst._attrs.update(attrs)
     return inst
 
